@@ -3,6 +3,16 @@
 import json, sys
 pid, wt = sys.argv[1], sys.argv[2]
 n = sys.argv[3] if len(sys.argv) > 3 else "2"
+hard = len(sys.argv) > 4
+HARD = """
+This is a SECOND round: the obvious places have been tried already.  Stay away from the main arithmetic of the most
+common instructions.  Prefer rarely exercised paths: other architecture versions (arch_version 4, 5, 7 in the
+configuration file), Monitor / Hyp / FIQ / System / Abort modes, Non-secure state (SCR.NS=1), big-endian data
+(CPSR.E), SCTLR.A / SCTLR.U alignment policies, the virtualization / LPAE / no-security-extension configurations,
+addresses and values near 0 and 2^32, Thumb IT-block interactions, register 13/14/15 in unusual roles, state carried
+from one instruction or one processor instance to the next, operands that are equal registers (Rd == Rn == Rm), and
+conditions that only hold for ONE specific field value.  Do not use `git stash` (worktrees share it).
+""" if hard else ""
 for l in open('/verif/properties.jsonl'):
     p = json.loads(l)
     if p['id'] == pid:
@@ -19,6 +29,7 @@ This semantic property is supposed to hold for the emulator:
   Quantified over: {p['quantifier']['text']}
   Relevant files: {', '.join(p['anchors']['files'][:10])}
 
+{HARD}
 Task: produce {n} DIFFERENT, independent, realistic source changes (bugs a developer could plausibly introduce while
 refactoring or optimising: an off-by-one, a wrong mask/shift/bit index, a swapped operand, a dropped wrap-around, a
 missed special case, a stale cache / shared mutable state, a wrong register bank, ...) to the emulator's code under
